@@ -972,6 +972,9 @@ class ModuleVistor(NodeVisitor):
             attr.annotation = unstring_annotation(node.returns, attr)
         attr.decorators = node.decorator_list
 
+        # A string statement following the property definition is not its docstring.
+        self.builder.currentAttr = None
+
         return attr
 
     def _annotations_from_function(
